@@ -154,6 +154,24 @@ def main(argv):
     cmp["rec_eq"] = [guarded(lambda a=a, b=b: a == b) for a in records[:12] for b in records[:12]]
     cmp["py_eq"] = [guarded(lambda a=a: a == model.build(specs[k], ft)) for k, a in enumerate(vs)
                     if not specs[k]["form"].startswith(("iso", "epoch"))]
+    # the same instant expressed with another UTC offset (built from the stdlib input, outside the library)
+    import datetime as _dt
+
+    shifted = []
+    for k, a in enumerate(vs):
+        try:
+            ref = model.build(specs[k], None) if specs[k]["form"] == "obj" else _dt.datetime(*model.observe_dt(a)[:7], tzinfo=_dt.timezone(
+                _dt.timedelta(microseconds=model.observe_dt(a)[7])))
+            if ref.tzinfo is None:
+                ref = ref.replace(tzinfo=_dt.timezone.utc)
+            other = ref.astimezone(_dt.timezone(_dt.timedelta(hours=5, minutes=45) if k % 2 else _dt.timedelta(hours=-9, seconds=-30)))
+        except (OverflowError, ValueError):
+            other = None
+        shifted.append(other)
+    cmp["eq_shifted_py"] = [guarded(lambda a=a, b=b: a == b) for a, b in zip(vs, shifted) if a is not None and b is not None]
+    cmp["eq_shifted_field"] = [guarded(lambda a=a, b=b: a == ft.datetime(b)) for a, b in zip(vs, shifted) if a is not None and b is not None]
+    cmp["ne_shifted_field"] = [guarded(lambda a=a, b=b: a != ft.datetime(b)) for a, b in zip(vs, shifted) if a is not None and b is not None]
+    cmp["set_shifted_field"] = [guarded(lambda a=a, b=b: len({a, ft.datetime(b)})) for a, b in zip(vs, shifted) if a is not None and b is not None]
     for name, cls in (("sel", Selector), ("csel", CompiledSelector)):
         for expr in ("r.ts < r.ts2", "r.ts == r.ts2", "r.ts >= r.ts2"):
             try:
